@@ -32,6 +32,7 @@ func (c *Ctx) readerRun(name string, cases []*RCase, withStd bool) (int, error) 
 		}
 	}
 	top := c.Levels[len(c.Levels)-1]
+	stdByID := map[string]*RCase{}
 	for _, cs := range cases {
 		cs.Family, cs.Impl = "reader", "fastgo"
 		if _, dup := byID[cs.ID]; dup {
@@ -46,6 +47,7 @@ func (c *Ctx) readerRun(name string, cases []*RCase, withStd bool) (int, error) 
 				s.Group = "std:" + s.Group
 			}
 			std = append(std, &s)
+			stdByID[s.ID] = &s
 		}
 	}
 	if len(std) > 0 {
@@ -63,6 +65,13 @@ func (c *Ctx) readerRun(name string, cases []*RCase, withStd bool) (int, error) 
 			for _, cl := range v.Clauses {
 				if stdTolerated[cl] {
 					continue
+				}
+				if cl == "C11.no_wait" && strings.Contains(v.Event, `"ev":"Gate"`) {
+					// compress/gzip holds the last bytes of a member while it looks for the trailer and the
+					// next member (DESIGN R3 (iii)); fastgo is held to the property as written
+					if sc, ok := stdByID[v.Case]; ok && sc.Kind == "gzip" {
+						continue
+					}
 				}
 				bad++
 				if bad <= 5 {
